@@ -939,6 +939,7 @@ class Sym:
             self.local_fns[st.name] = st
             return Outcome(env, None), path
         if isinstance(st, (ast.Continue, ast.Break)):
+            self._record("break" if isinstance(st, ast.Break) else "continue", st, None, None, path, loops)
             if self._exits:
                 self._exits[-1].append((path, dict(env)))
             return Outcome(None, None), path
